@@ -301,7 +301,7 @@ pub fn run_check(prop: &Prop, tier: Tier) -> i32 {
                     break;
                 }
                 let path = vd.join("replays").join(format!("{}-{}.json", prop.id, nfile));
-                let doc = json!({"property": prop.id, "engine": "e1", "violation": v.to_json()});
+                let doc = json!({"property": prop.id, "engine": v.engine, "violation": v.to_json()});
                 let _ = std::fs::write(&path, serde_json::to_vec_pretty(&doc).unwrap());
                 println!("VIOLATION property={} replay={}", prop.id, path.display());
                 println!("  unit={} what={}", v.unit, v.what);
